@@ -269,10 +269,24 @@ pub fn trace(orig: &str, base: usize, ops: &[Op]) -> (String, String) {
                 let e = q.end_offset();
                 let rem = q.remainder();
                 let inv = s >= base && orig.as_bytes().get(s - base..e.wrapping_sub(base)).map_or(false, |x| x == rem.as_bytes());
+                // the error the parser WOULD report here (into_error / into_other_error / copy),
+                // and len / is_empty
+                let e1 = q.into_error(konst::parsing::ErrorKind::Other);
+                let e2 = q.into_other_error(&"custom");
+                let e3 = e1.copy();
+                let mut errs = format!("{}{}", e1.offset(), dir(e1.error_direction()));
+                if (e2.offset(), dir(e2.error_direction()), format!("{:?}", e2.kind())) != (e1.offset(), dir(e1.error_direction()), "Other".to_string())
+                    || (e3.offset(), dir(e3.error_direction()), format!("{:?}", e3.kind())) != (e1.offset(), dir(e1.error_direction()), "Other".to_string())
+                {
+                    errs.push_str("!other/copy");
+                }
+                if q.len() != rem.len() || q.is_empty() != rem.is_empty() {
+                    errs.push_str("!len");
+                }
                 out.push(format!(
-                    "ok({},{},{},{},{},{})",
+                    "ok({},{},{},{},{},{},{})",
                     s, e, hex(rem.as_bytes()), dir(q.parse_direction()),
-                    v.unwrap_or("-".to_string()), show_bool(inv)
+                    v.unwrap_or("-".to_string()), show_bool(inv), errs
                 ));
                 if rem.len() != before.len() {
                     changed += 1;
